@@ -95,8 +95,6 @@ def sortByText : List (Nat × Nat) → List (Nat × Nat)
 /-- `fmt.Fprintf(tw, "%s:%d  ", code, count)` -/
 def codeCell (p : Nat × Nat) : Bytes := Duration.fmtNat p.1 ++ [58] ++ Duration.fmtNat p.2 ++ [32, 32]
 
-def str (s : String) : Bytes := s.toUTF8.toList.map (·.toNat)
-
 structure TextReport where
   rows   : List (Bytes × Bytes × Bytes)   -- label, header, values
   errors : List Bytes                      -- the lines after "Error Set:"
